@@ -69,16 +69,47 @@ def cls_tilde_flanking(r):
     return re.search(rb"[*_]~|~[*_]", r["md"]) is not None
 
 
+def _ends_with_hr(b):
+    if b[0] == "Hr":
+        return True
+    if b[0] in ("Bullet", "Ordered", "Item"):
+        ks = c03gen.kids_b(b)
+        return bool(ks) and _ends_with_hr(ks[-1])
+    return False
+
+
 def cls_hr_blank_tight(r):
-    # a loose list whose item has a thematic break followed by a blank line (another child or another item)
+    # a loose list in which a thematic break (possibly at the end of a nested list) is followed by the
+    # blank line that separates two children of an item or two items
     def blk(b):
         if b[0] in ("Bullet", "Ordered") and not b[1]:
             items = c03gen.kids_b(b)
             for n, it in enumerate(items):
                 ks = it[2]
                 for j, k in enumerate(ks):
-                    if k[0] == "Hr" and (j + 1 < len(ks) or n + 1 < len(items)):
+                    if _ends_with_hr(k) and (j + 1 < len(ks) or n + 1 < len(items)):
                         return True
+        return any(blk(c) for c in c03gen.kids_b(b))
+    return any(blk(b) for b in r["doc"]["body"])
+
+
+def cls_escaped_task_marker(r):
+    # a plain item whose first paragraph spells [ ] or [x] with backslash-escaped brackets
+    def lead_text(l):
+        out = b""
+        for i in l:
+            if i[0] in ("Str", "Esc"):
+                out += i[1]
+            elif i[0] == "Sp":
+                out += b" "
+            else:
+                break
+        return out
+
+    def blk(b):
+        if b[0] == "Item" and b[1] is None and b[2] and b[2][0][0] == "Para":
+            if re.match(rb"^\[[ xX]\]( |$)", lead_text(b[2][0][1])):
+                return True
         return any(blk(c) for c in c03gen.kids_b(b))
     return any(blk(b) for b in r["doc"]["body"])
 
@@ -108,7 +139,7 @@ def in_proved_fragment(d):
     return all(blk(b) for b in d["body"]) and not _inl_any(d, lambda i: i[0] == "Foot")
 
 
-CLASSES = [("fence_info_math", cls_fence_info_math), ("image_alt_caret", cls_image_alt_caret), ("tilde_transparent_in_flanking", cls_tilde_flanking),
+CLASSES = [("fence_info_math", cls_fence_info_math), ("escaped_task_marker", cls_escaped_task_marker), ("image_alt_caret", cls_image_alt_caret), ("tilde_transparent_in_flanking", cls_tilde_flanking),
            ("hr_then_blank_line_in_item_tight", cls_hr_blank_tight), ("header_only_table_in_tight_list", cls_header_only_table)]
 
 
